@@ -360,6 +360,29 @@ def coincidence_programs():
             yield [(first, [x, y]), ('m', [x, y]), ('l', [2 * x, 2 * y]), ('z', [])]
 
 
+REGIMES = ['tiny', 'far', 'hairline']
+
+
+def regime_program(prog, kind):
+    """the same command sequence as another drawing: 'tiny' - every length multiplied by 2^-30 (exactly); 'far' - the
+    drawing moved by (2^20, 2^20) (absolute coordinates only; relative ones are offsets); 'hairline' - as far, and every
+    length multiplied by 2^-10 as well (a small shape far from the origin: its features are ~1e-9 of its coordinates)"""
+    k = {'tiny': 2.0 ** -30, 'far': 1.0, 'hairline': 2.0 ** -10}[kind]
+    off = 0.0 if kind == 'tiny' else 2.0 ** 20
+    out = []
+    for letter, args in prog:
+        up, a = letter.upper(), list(args)
+        ab = off if letter.isupper() else 0.0
+        if up == 'A':
+            a = [a[0] * k, a[1] * k, a[2], a[3], a[4], a[5] * k + ab, a[6] * k + ab]
+        elif up in 'HV':
+            a = [a[0] * k + ab]
+        elif up != 'Z':
+            a = [x * k + ab for x in a]
+        out.append((letter, a))
+    return out
+
+
 def run_shard(desc, tier, seed):
     acc = core.Acc()
     tp = tier_params(tier, seed)
@@ -391,6 +414,10 @@ def run_shard(desc, tier, seed):
         for letters in progs:
             prog = make_program(first, letters, rot)
             check_program(prog, rot, styles, acc)
+            if K <= 3:
+                for rg in REGIMES:
+                    check_program(regime_program(prog, rg), rot, ['spaced', 'minimal'], acc)
+                    acc.seen('regime:' + rg)
             seq = [first] + list(letters)
             for a, b in zip(seq, seq[1:]):
                 edges.add((a.upper(), b.upper()))
